@@ -17,6 +17,7 @@ import (
 	"path/filepath"
 	"runtime"
 	"strconv"
+	"sync"
 	"sync/atomic"
 	"time"
 )
@@ -375,10 +376,50 @@ func vReleaseWaiter(cs *clientState) {
 	atomic.StoreInt64(&vWaiterID, -1)
 }
 
-// vFireTimer lets the pending (short) real timer of the strand expire.
+// Timers of the package under test: the replay overlay routes time.NewTimer
+// and time.Until in redisList.go through these wrappers, so that natively -
+// as in the engine - a timer fires exactly when the harness says so and the
+// duration it was armed with can be observed.
+var (
+	vTimerMu   sync.Mutex
+	vTimers    []*time.Timer
+	vTimerDurs []time.Duration
+)
+
+func vNewTimer(d time.Duration) *time.Timer {
+	vTimerMu.Lock()
+	defer vTimerMu.Unlock()
+	t := time.NewTimer(time.Hour)
+	if d <= 0 {
+		t.Reset(0)
+	}
+	vTimers = append(vTimers, t)
+	vTimerDurs = append(vTimerDurs, d)
+	return t
+}
+
+func vTimeUntil(t time.Time) time.Duration { return t.Sub(vTimeNow()) }
+
+// vFireTimer lets the pending timer of the strand expire.
 func vFireTimer() bool {
-	time.Sleep(150 * time.Millisecond)
-	return true
+	vTimerMu.Lock()
+	n := len(vTimers)
+	if n > 0 {
+		vTimers[n-1].Reset(0)
+	}
+	vTimerMu.Unlock()
+	time.Sleep(60 * time.Millisecond)
+	return n > 0
+}
+
+// vTimerArmedNs is the duration the strand's latest timer was armed with.
+func vTimerArmedNs() int64 {
+	vTimerMu.Lock()
+	defer vTimerMu.Unlock()
+	if len(vTimerDurs) == 0 {
+		return -1
+	}
+	return int64(vTimerDurs[len(vTimerDurs)-1])
 }
 
 func vActiveTimers() int { return 0 }
